@@ -59,9 +59,13 @@ OTHER_TYPES = {
 
 
 def available_other_types():
-    exec_v = Path(__file__).resolve().parent.parent / "coq" / "Mem" / "Exec.v"
-    txt = exec_v.read_text() if exec_v.exists() else ""
-    names = set(re.findall(r'B "([a-z]+)"', txt))
+    """The other value types whose creating command some family file under coq/Mem dispatches."""
+    mem = Path(__file__).resolve().parent.parent / "coq" / "Mem"
+    names = set()
+    for f in sorted(mem.glob("*.v")):
+        if "Proofs" in f.name or "Spec" in f.name:
+            continue
+        names |= set(re.findall(r'is n \(B "([a-z]+)"\)', f.read_text()))
     return [t for t, (cmd, _) in OTHER_TYPES.items() if cmd.decode() in names]
 
 
@@ -185,20 +189,20 @@ def spell(word, style):
 
 def set_option_cases(prepop=None):
     prepop = prepop_cmds() if prepop is None else prepop
-    other = prepop[0] if prepop else None
     cases = []
     n = 0
 
     def one(words, style):
         nonlocal n
-        states = ["missing", "string-ttl"] + (["other"] if other else [])
+        # the key of another type cycles through every type the model knows
+        states = ["missing", "string-ttl"] + (["other"] if prepop else [])
         for stt in states:
             c = Case("c01s_%d" % n)
             n += 1
             if stt == "string-ttl":
                 c.cmd([b"set", b"Key", b"old", b"EX", b"1000"])
             elif stt == "other":
-                c.cmd(other(b"Key"))
+                c.cmd(prepop[n % len(prepop)](b"Key"))
                 c.cmd([b"expire", b"Key", b"1000"])
             c.cmd([spell("SET", style), b"Key", b"new"] + words)
             c.cmd([b"get", b"Key"])
@@ -278,6 +282,50 @@ def index_cases():
     return cases
 
 
+# ---------------------------------------------------------------- generic key commands x every value type
+def generic_key_cases(prepop_types=None):
+    """TYPE / EXISTS / RENAME / DEL / KEYS / MGET / SET over keys holding each value type (string
+    and every other type the model knows), with and without a deadline; RENAME onto a missing key,
+    onto itself and onto a key of each type."""
+    types = available_other_types() if prepop_types is None else prepop_types
+    make = {"string": lambda k: [b"set", k, b"sv"]}
+    for t in types:
+        make[t] = OTHER_TYPES[t][1]
+    names = list(make)
+    cases = []
+    n = 0
+    for src in names:
+        for dst in ["missing", "itself"] + names:
+            for ttl in (False, True):
+                c = Case("c01k_%d" % n)
+                n += 1
+                c.cmd(make[src](b"Src"))
+                if ttl:
+                    c.cmd([b"expire", b"Src", b"100"])
+                if dst in make:
+                    c.cmd(make[dst](b"Dst"))
+                    c.cmd([b"expire", b"Dst", b"500"])
+                target = b"Src" if dst == "itself" else b"Dst"
+                c.cmd([b"type", b"Src"])
+                c.cmd([b"exists", b"Src", b"Dst", b"Src", b"src"])
+                c.cmd([b"keys", b"*"])
+                c.cmd([b"mget", b"Src", b"Dst"])
+                c.cmd([b"rename", b"Src", target])
+                c.dump()
+                c.cmd([b"type", target])
+                c.cmd([b"ttl", target])
+                c.cmd([b"type", b"Src"])
+                c.cmd([b"exists", b"Src", b"Dst"])
+                c.cmd([b"keys", b"?[rs][ct]"])
+                c.cmd([b"rename", b"nokey", target])
+                c.cmd([b"del", b"Src", b"Dst", b"Dst", b"nokey"], sleep_ms=1000)
+                c.cmd([b"set", target, b"x"])
+                c.cmd([b"type", target])
+                c.dump()
+                cases.append(c)
+    return cases
+
+
 # ---------------------------------------------------------------- malformed arity, unknown commands
 def malformed_cases(seed):
     r = random.Random(seed * 7919 + 1)
@@ -314,15 +362,16 @@ def command_instances(prepop=None, large=False):
             ins.append([b"incrby", k, v])
         ins += [[b"decrby", k, b"-1"], [b"getrange", k, b"1", b"-1"], [b"getrange", k, b"-1", b"9223372036854775807"],
                 [b"setrange", k, b"1", b""], [b"setrange", k, b"1", b"ab"], [b"incrbyfloat", k, b"0.5"]]
-        for p in prepop[:1]:
+        for p in (prepop if k == b"k" else prepop[:1]):     # k: every other type, K: a list
             ins.append(p(k))
         if large:
             ins += [[b"set", k, b"ab", b"GET"], [b"set", k, b"1", b"XX"], [b"setex", k, b"100", b"1"], [b"ttl", k],
                     [b"persist", k], [b"expire", k, b"100"], [b"decrby", k, b"9223372036854775807"],
                     [b"incrbyfloat", k, b"x\r\n"], [b"getrange", k, b"-1", b"-9223372036854775808"],
                     [b"setrange", k, b"9223372036854775807", b"1"], [b"append", k, b"x\r\n"]]
-            for p in prepop[1:]:
-                ins.append(p(k))
+            if k != b"k":
+                for p in prepop[1:]:
+                    ins.append(p(k))
     ins += [[b"del", b"k"], [b"del", b"k", b"K", b"k"], [b"exists", b"k", b"K", b"k"], [b"rename", b"k", b"K"],
             [b"rename", b"K", b"k"], [b"rename", b"k", b"k"], [b"keys", b"*"], [b"keys", b"[k]"], [b"mget", b"k", b"K"],
             [b"mset", b"k", b"1", b"K", b"ab", b"k", b"-1"]]
